@@ -321,10 +321,42 @@ class StmtMixin:
         else:
             self.effect("unsupported", site, st, fr, what="assign-target")
 
+    def _all_false_mask(self, m: Node) -> bool:
+        """np.zeros(shape, dtype=bool) / np.full(shape, False) / zeros_like(x, dtype=bool): a mask that selects nothing"""
+        if m.op == "Call" and m.args and m.args[0].op == "Ext":
+            q = m.args[0].attr
+            npos, kwn = m.attr[1], m.attr[2]
+            pos = list(m.args[1:1 + npos])
+            kws = dict(zip(kwn, m.args[1 + npos:]))
+            dt = kws.get("dtype") or (pos[1] if q in ("numpy.zeros", "numpy.zeros_like") and len(pos) > 1 else None)
+            is_bool = dt is not None and ((dt.op == "Ext" and dt.attr in ("builtins.bool", "numpy.bool_")) or
+                                          (dt.op == "Const" and dt.attr in ("bool", "?")))
+            if q in ("numpy.zeros", "numpy.zeros_like") and is_bool:
+                return True
+            if q in ("numpy.full", "numpy.full_like") and len(pos) >= 2 and pos[1].op == "Const" and pos[1].attr is False:
+                return True
+        return False
+
     def write(self, base_id: Node, idx: Node, value: Node, st: St, fr, site, aug=None):
         base = self.res(base_id, st)
         if idx.op in ("Call", "Subscript") and self._mask_of_index(idx) is not None and base.op not in ("Dict", "List"):
             idx = self._mask_of_index(idx)
+        if base.op not in ("Dict", "List"):
+            iv = self.res(idx, st)
+            if self._all_false_mask(iv):
+                return              # x[all-False mask] = v stores nothing
+            if iv.op == "Phi" and (self._all_false_mask(iv.args[1]) or self._all_false_mask(iv.args[2])):
+                # the mask itself was chosen by a decision (a helper returns "nothing to remove" or the real mask):
+                # x[m] = v with m = (c ? A : B) is  if c: x[A] = v  else: x[B] = v
+                c = iv.args[0]
+                base_pc = st.pc
+                s1, s2 = st.copy(), st.copy()
+                s1.pc = base_pc + ((c, True),)
+                s2.pc = base_pc + ((c, False),)
+                self.write(base_id, iv.args[1], value, s1, fr, site, aug)
+                self.write(base_id, iv.args[2], value, s2, fr, site, aug)
+                st.assign_from(self.merge2(c, s1, s2, base_pc))
+                return
         ik = self.const_key(idx)
         if base.op == "Dict" and ik is not self.NOKEY and aug is None:
             new = self.dict_set(base, ik, value, site)
